@@ -320,6 +320,8 @@ def check(ctx):
 
 
 VARIANTS = [
+    M('R3', TR, "        data = bytearray(struct.pack('H', packet.length+2))", "        data = bytearray(struct.pack('!H', packet.length+2))", 'big-endian prefix on both sides',
+      extra=[(TR, "        size = struct.unpack('H', self._readData(2))[0]", "        size = struct.unpack('!H', self._readData(2))[0]")]),
     M('R5', CPX, "        self._rxQueues = {}\n", "        self._rxQueues = dict.fromkeys([f.value for f in CPXFunction], queue.Queue())\n", 'one queue shared by all functions'),
     B(CPX, "        self._rxQueues = {}\n", "        self._rxQueues = {f.value: queue.Queue() for f in CPXFunction}\n", 'queues pre-created, one each'),
     M('R1', CPX, "        targetsAndFlags = ((self.source.value & 0x7) << 3) | (self.destination.value & 0x7)", "        targetsAndFlags = ((self.source.value & 0x7) << 4) | (self.destination.value & 0x7)", 'source shift'),
